@@ -140,6 +140,26 @@ def zip_harness(w, nl, nr, iters, max_len, timed=False, cut='each'):
         net = binary_setup(ex, w, holder, setup, nl, nr, sl, sr, cut)
         total = sum(len(s) for s in sl + sr)
         out = hlib.drive(ex, nxt, holder, 2 * total + 8)
+        if ex.env.get('native'):
+            # the model run fixed the arrival order; the real Zip gets the same batches in the same order
+            bl = [ev for ev in net.log if ev[0] == 'batch']
+            args = [nl, nr, len(bl)]
+            for _, bid, s, batch in bl:
+                args += [bid, s, len(batch)] + hlib.encode_script(ex, batch, False)
+            import os
+            os.environ['VERIF_REPLAY_ZIP_GAP_MS'] = '40'
+            runner, prof = ex.env['native']
+            ex.env['native_used'] = True
+            txt = runner('zip', args)[prof]
+            ex.env['native_out'] = txt
+            if txt == 'PANIC':
+                from mirsym.executor import RustPanic
+                raise RustPanic('the real Zip panicked on this input')
+            toks = txt.split()
+            if toks and toks[-1] in ('TIMEOUT', 'OVERRUN'):
+                raise Violation('the real Zip does not terminate on this input (%s)' % toks[-1], hlib._wit(ex))
+            out = [hlib.parse_token(t) for t in toks]
+            ex.env['last_output'] = out
         sx = lambda: {'left': [[repr(e) for e in s] for s in sl], 'right': [[repr(e) for e in s] for s in sr],
                       'arrival': [(ev[1], ev[2], len(ev[3])) for ev in net.log if ev[0] == 'batch'],
                       'output': [repr(e) for e in out]}
